@@ -6,7 +6,7 @@ import "strings"
 // compared with the body written in place. The pair of call sites (two URLs with a path
 // parameter, two methods, two responses of one method), the macro body (what the sites
 // admit), an optional directive between the two sites and the position of the MACRO
-// definition are symbolic.
+// definition (before JSIGHT, right after it, at the end) are symbolic.
 func HPasteTwice() {
 	type pair struct {
 		head1, tail1 string // first parent before / after the call
@@ -43,9 +43,12 @@ func HPasteTwice() {
 	call := vIndent("PASTE @m\n", p.indent)
 	macro := "MACRO @m\n(\n" + vIndent(body, 2) + ")\n"
 	docB := head + p.head1 + call + p.tail1 + sep + p.head2 + call + p.tail2
-	if vBool("defFirst") {
+	switch vInt("defPos", 0, 2) {
+	case 0:
+		docB = macro + docB
+	case 1:
 		docB = strings.Replace(docB, head, head+macro, 1)
-	} else {
+	default:
 		docB += macro
 	}
 	cA, jeA := vBuildText(docA)
